@@ -420,3 +420,102 @@ func ruleENTRY(c *Ctx) {
 		c.add(rule, "count:", token.NoPos, CountDropped, true, "only %d Parse* entry points found (10 confirmed by hand)", n)
 	}
 }
+
+// BOUND(trim-floor): the loops that strip trailing empty symbols from a node's range test
+// rhs[i] for emptiness while i stays at or above a floor. reportRange must keep one symbol
+// (it reads rhs[0] afterwards), so its floor is index 1; parse() and fixTrailingWS handle the
+// all-empty case after the loop, so theirs is index 0. A higher floor leaves an empty symbol at
+// the end of the range: the node then extends over the whitespace and comments before the
+// next token.
+func ruleTRIMFLOOR(c *Ctx) {
+	const rule = "BOUND(trim-floor)"
+	want := map[string]int64{"reportRange": 1, "parse": 0, "fixTrailingWS": 0}
+	n := 0
+	for _, rel := range parserPkgs {
+		for _, f := range c.SrcFuncs(rel) {
+			exp, known := want[f.Name()]
+			loops := naturalLoops(f)
+			for _, b := range f.Blocks {
+				if len(b.Instrs) == 0 {
+					continue
+				}
+				ifi, ok := b.Instrs[len(b.Instrs)-1].(*ssa.If)
+				if !ok {
+					continue
+				}
+				bo, ok := ifi.Cond.(*ssa.BinOp)
+				if !ok || bo.Op != token.EQL {
+					continue
+				}
+				lp, rp := vpath(bo.X), vpath(bo.Y)
+				if !strings.HasSuffix(lp, ".sym.offset") || !strings.HasSuffix(rp, ".sym.endoffset") {
+					continue
+				}
+				loop := innermostLoop(loops, b)
+				if loop == nil {
+					continue
+				}
+				// the index expression
+				var idx ssa.Value
+				var walk func(v ssa.Value)
+				walk = func(v ssa.Value) {
+					switch x := v.(type) {
+					case *ssa.UnOp:
+						walk(x.X)
+					case *ssa.FieldAddr:
+						walk(x.X)
+					case *ssa.IndexAddr:
+						idx = x.Index
+					}
+				}
+				walk(bo.X)
+				if idx == nil {
+					continue
+				}
+				d := int64(0)
+				base := idx
+				if ib, ok := idx.(*ssa.BinOp); ok && ib.Op == token.SUB {
+					if k, ok := ib.Y.(*ssa.Const); ok && k.Value != nil {
+						d, base = k.Int64(), ib.X
+					}
+				}
+				// the guard in the same loop: K < base or K <= base
+				floor := int64(-99)
+				for _, g := range flattenConds(governing(b)) {
+					if !loop.Body[g.If.Block()] {
+						continue
+					}
+					l, op, r, ok := cmpNormV(g.V, g.Pol)
+					if !ok {
+						continue
+					}
+					k, isK := l.(*ssa.Const)
+					if !isK || k.Value == nil || vpath(r) != vpath(base) {
+						continue
+					}
+					switch op {
+					case "<":
+						floor = k.Int64() + 1 - d
+					case "<=":
+						floor = k.Int64() - d
+					}
+				}
+				n++
+				key := fmt.Sprintf("%s:trim-floor", ssaFuncKey(f))
+				switch {
+				case !known:
+					c.Unaud(rule, key, bo.Pos(), "a loop that strips trailing empty symbols in %s is not in the audited table", f.Name())
+				case floor == -99:
+					c.Undec(rule, key, bo.Pos(), "the lower bound of the index %s was not found in the loop condition", normalizePhi(vpath(idx)))
+				case floor == exp:
+					c.Ok(rule, key, bo.Pos(), "trailing empty symbols are stripped down to index %d", exp)
+				default:
+					c.Bad(rule, key, bo.Pos(), "trailing empty symbols are stripped only down to index %d (expected %d): an empty symbol can stay at the end of the range and the node runs into the following whitespace", floor, exp)
+				}
+			}
+		}
+	}
+	if n < 4 {
+		c.add(rule, "count:", token.NoPos, CountDropped, true, "only %d trailing-empty loops found (>= 4 confirmed by hand)", n)
+	}
+}
